@@ -9,6 +9,8 @@ import Larking.Lemmas.VarIndexComplete
 import Larking.Lemmas.LiteralRoute
 import Larking.Lemmas.Commute
 import Larking.Lemmas.PatternText
+import Larking.Gen.TrieDel
+import Larking.Lemmas.TrieDelReach
 /-
   C02 — Routing completeness, literal-over-wildcard precedence, order independence.
 -/
@@ -59,7 +61,11 @@ theorem skeleton_unchanged :
      Gen.Skel.conds_lexPath,
      Gen.Skel.stmts_lexPath,
      Gen.Skel.conds_lexPathSegment,
-     Gen.Skel.stmts_lexPathSegment)
+     Gen.Skel.stmts_lexPathSegment,
+     Gen.Skel.conds_path_delRule,
+     Gen.Skel.stmts_path_delRule,
+     Gen.Skel.conds_path_alive,
+     Gen.Skel.stmts_path_alive)
   = (Expected.C02.conds_variable_index,
      Expected.C02.stmts_variable_index,
      Expected.C02.conds_path_search,
@@ -101,7 +107,11 @@ theorem skeleton_unchanged :
      Expected.C02.conds_lexPath,
      Expected.C02.stmts_lexPath,
      Expected.C02.conds_lexPathSegment,
-     Expected.C02.stmts_lexPathSegment) := rfl
+     Expected.C02.stmts_lexPathSegment,
+     Expected.C02.conds_path_delRule,
+     Expected.C02.stmts_path_delRule,
+     Expected.C02.conds_path_alive,
+     Expected.C02.stmts_path_alive) := rfl
 
 /-- **Completeness.** For every accepted list of rules: whenever some way through the trie
 matches the request's tokens for the request's verb (that is what a registered rule matching
@@ -215,6 +225,43 @@ theorem dispatch_survives_registrations (conv) (hconv : ∀ f t, conv f t = true
   have hw := buildAll_ext Gen.tokenCap more t t' hm verb toks es (reach_way conv verb t toks m caps es hre)
   have hwf := buildAll_WF Gen.tokenCap more t t' (buildAll_WF Gen.tokenCap rs .empty t (WF_empty 0) hb) hm
   exact way_dispatched conv hconv verb t' toks es hw 0 hwf
+
+/-- **No deletion takes another method's route away**: on the trie built by any accepted
+registrations, a request the router dispatches to a method that is NOT the one being removed
+still has its way — same edges, same captures — and is still dispatched after `path.delRule`
+ran for `name` any number of times (`DropConn`, re-registration of a changed connection), with
+every pruning of dead nodes on the way back up (`path.alive`, regenerated: `Gen.aliveCounts`). -/
+theorem dispatch_survives_deletions (conv) (hconv : ∀ f t, conv f t = true)
+    (rs : List (Rule × Nat × (List Bytes → Option Nat))) (t : Node)
+    (hb : buildAll Gen.tokenCap rs .empty = .ok t) (name fuel : Nat)
+    (verb : Bytes) (toks : List Tok) (m : Meth) (caps : Caps)
+    (hs : search conv verb t toks = .found m caps) (hne : m.mid ≠ name) :
+    (∃ es, Reach conv verb (delAll Gen.aliveCounts name fuel t) toks m caps es) ∧
+    ∃ m' caps', search conv verb (delAll Gen.aliveCounts name fuel t) toks = .found m' caps' := by
+  have hal : AliveSound Gen.aliveCounts := by unfold AliveSound; decide
+  obtain ⟨es, hre⟩ := search_sound conv verb t toks m caps hs
+  have hre' := delAll_keeps_reach Gen.aliveCounts hal conv verb name fuel t toks m caps es hre hne
+  have hwf := delAll_wf Gen.aliveCounts name fuel 0 t (buildAll_WF Gen.tokenCap rs .empty t (WF_empty 0) hb)
+  exact ⟨⟨es, hre'⟩, search_complete conv verb hconv _ toks m caps es hre' 0 hwf⟩
+
+/-- … one deletion step, stated on any well-formed trie. -/
+theorem delRule_keeps_ways (conv) (verb : Bytes) (name k : Nat) (n n' : Node) (hwf : WF k n)
+    (hd : delRule Gen.aliveCounts name n = some n') (toks : List Tok) (m : Meth) (caps : Caps)
+    (es : List Edge) (hr : Reach conv verb n toks m caps es) (hne : m.mid ≠ name) :
+    Reach conv verb n' toks m caps es ∧ WF k n' :=
+  ⟨delRule_keeps_reach Gen.aliveCounts (by unfold AliveSound; decide) conv verb name n toks m caps es hr hne n' hd,
+   delRule_wf Gen.aliveCounts name k n n' hwf hd⟩
+
+/-- not vacuous, and the pruning really happens: removing method 1's `GET /p/x` from a trie that
+also holds method 2's `GET /p` prunes `/p/x` and keeps `/p`. -/
+example :
+    let mA : Meth := ⟨1, [], 0⟩
+    let mB : Meth := ⟨2, [], 1⟩
+    let x : Node := .mk [] [([71, 69, 84], mA)] none []
+    let pn : Node := .mk [([47, 120], x)] [([71, 69, 84], mB)] none []
+    let root : Node := .mk [([47, 112], pn)] [] none []
+    delRule Gen.aliveCounts 1 root = some (.mk [([47, 112], .mk [] [([71, 69, 84], mB)] none [])] [] none []) := by
+  rfl
 
 /-- **`variable.index` finds every greedy instance of a sub-pattern** (`GMatch`: literals and
 '/' token for token, `*` the maximal run of non-separator tokens, `**` everything up to the
@@ -470,6 +517,8 @@ end Larking.Props.C02
 #print axioms Larking.Props.C02.documented_paths_lex
 #print axioms Larking.Props.C02.accepted_rules_are_routed
 #print axioms Larking.Props.C02.dispatch_survives_registrations
+#print axioms Larking.Props.C02.dispatch_survives_deletions
+#print axioms Larking.Props.C02.delRule_keeps_ways
 #print axioms Larking.Props.C02.variable_index_complete
 #print axioms Larking.Props.C02.accepted_rules_route_their_instances
 #print axioms Larking.Props.C02.grammar_binding_edges
